@@ -8,7 +8,6 @@ from aiohttp.client import ClientSession, ClientTimeout, TCPConnector
 
 from sdc11073 import commlog, observableproperties
 from sdc11073.httpserver.compression import CompressionHandler
-from sdc11073.httpserver.httpreader import mk_chunks
 from sdc11073.namespaces import default_ns_helper as ns_hlp
 from sdc11073.pysoap.soapenvelope import Fault
 
@@ -140,8 +139,9 @@ class SoapClientAsync:
                         headers['Content-Encoding'] = compr
                         break
             if self._chunk_size > 0:
-                headers['transfer-encoding'] = "chunked"
-                xml_request = mk_chunks(xml_request, chunk_size=self._chunk_size)
+                # hand the body over in pieces: aiohttp then sends it with chunked transfer encoding and without
+                # Content-Length (framing it here and sending it as one block added a Content-Length header)
+                xml_request = self._iter_chunks(xml_request, self._chunk_size)
             else:
                 headers['Content-Length'] = str(len(xml_request))
 
@@ -167,6 +167,11 @@ class SoapClientAsync:
             soap_fault = Fault.from_node(message_data.p_msg.msg_node)
             raise HTTPReturnCodeError(resp.status, resp.reason, soap_fault)
         return message_data
+
+    @staticmethod
+    async def _iter_chunks(data: bytes, chunk_size: int):  # noqa: ANN205
+        for i in range(0, len(data), chunk_size):
+            yield data[i:i + chunk_size]
 
     def _make_get_headers(self) -> dict[str, str]:
         headers = {
